@@ -61,7 +61,7 @@ func init() {
 		Run:            c17Run,
 		Replay:         c17Replay,
 		QuickBudget:    240 * time.Second,
-		ThoroughBudget: 570 * time.Second,
+		ThoroughBudget: 25 * time.Minute,
 	})
 }
 
